@@ -49,6 +49,8 @@ type HTTPSpec struct {
 	Nsx     NsxBackend
 	// Commit job behaviour: number of PEND answers before result.
 	PendCount int
+	// KeyForm: how the keygen reply spells the key: "" = text, "cdata".
+	KeyForm string
 	ToolPid   func() int
 }
 
@@ -242,7 +244,11 @@ func (h *HTTPSim) panos(w http.ResponseWriter, r *http.Request, ord int) {
 			m := &h.Spec.Members[i]
 			if m.User == q.Get("user") && m.Password == q.Get("password") {
 				h.event(ord, "keygen user="+m.User, "login", "accepted", "")
-				fmt.Fprintf(w, `<response status="success"><result><key>%s</key></result></response>`, xmlEscape(m.Key))
+				if h.Spec.KeyForm == "cdata" {
+					fmt.Fprintf(w, `<response status="success"><result><key><![CDATA[%s]]></key></result></response>`, m.Key)
+				} else {
+					fmt.Fprintf(w, `<response status="success"><result><key>%s</key></result></response>`, xmlEscape(m.Key))
+				}
 				return
 			}
 		}
